@@ -42,6 +42,8 @@ def check(run, replay=None):
     with Scratch() as d:
         if replay:
             return do_replay(run, binp, replay, d)
+        run.notes["level_note"] = ("close to one pure function per arity: TLC contributes the exhaustive enumeration of the small "
+                                   "domain, the sensitivity check of the function families and the line-by-line judgement of call logs")
         # ---- 1. model + expected values
         c = dict(inttop=300, seqlen=4) if thorough else dict(inttop=5, seqlen=2)
         r = run_tlc("ComposeMC", MC_CFG % c, timeout=900)
